@@ -25,6 +25,7 @@ def declare(rep):
     rep.rule("C13.poisson-grid-size", "the grid in which accepted samples are looked up has a voxel size >= the minimum distance handed to poisson_disk_sampling: get_neighborhood only visits the 27 surrounding voxels", floor=2)
     rep.rule("C13.normals-after-orientation", "initialize_cell_properties computes the stored face normals (update_all_face_normals_and_areas) after check_face_normal_orientation on every path that runs the orientation repair: the repair re-winds faces, normals computed before it point inward", floor=1)
     rep.rule("C13.call-once-cache", "no function on the start-up cone keeps a function-local static (const or not) whose initialiser depends on a parameter, on the object or on other run-time state: it would be computed by the first call of the process and silently reused by every later cell / simulation", floor=30)
+    rep.rule("C13.ball-scale", "triangulate_surface hands the ball-pivoting algorithm the same length as the minimum spacing of the Poisson point cloud it pivots over (the ball radius is a fixed multiple of that length: a ball sized from another length bridges concavities wider than the sampling but narrower than the ball)", floor=1)
     rep.rule("C13.parallel-handler", "the per-cell triangulation runs under parallel_exception_handler", floor=1)
     rep.rule("C13.noexcept-escape", "no noexcept function on the start-up cone lets a callee's exception escape", floor=40)
     rep.rule("C13.lost-update", "on the start-up cone no range-for mutates a by-value copy of a mesh element whose result is discarded (e.g. the orientation flip must act on the faces themselves)", floor=20)
@@ -46,6 +47,7 @@ def run(rep, prog, tier):
     cone_lints(rep, prog)
     normals_after_orientation(rep, prog)
     call_once_cache(rep, prog)
+    ball_scale(rep, prog)
 
 
 def cone_lints(rep, prog):
@@ -587,3 +589,21 @@ def call_once_cache(rep, prog):
                           "%s declares 'static %s %s = %s': the initialiser is evaluated by the first call in the process only, every later call (another cell, a second simulation with other parameters) silently reuses that value" % (fn["qn"], v.get("t"), v.get("name"), short(v.get("init") or {}, 60)))
         if not bad:
             rep.ok("C13.call-once-cache", prog, fn, None, "%s: %d function-local static(s), none initialised from run-time values" % (fn["qn"], len(statics)))
+
+
+def ball_scale(rep, prog):
+    from ..model import expand_text
+    fn = prog.fn("initial_triangulation::triangulate_surface")
+    samp = [n for n in walk(fn["body"]) if is_call(n) and n.get("callee") in ("initial_triangulation::generate_poisson_point_cloud", "poisson_sampling::compute_poisson_point_cloud")]
+    bpa = [n for n in walk(fn["body"]) if n.get("k") in ("CXXConstructExpr", "CXXTemporaryObjectExpr") and (n.get("cls") == "ball_pivoting_algorithm" or (n.get("t") or "").replace("const ", "") == "ball_pivoting_algorithm") and len([c for c in n.get("c", []) if isinstance(c, dict)]) >= 2]
+    if not samp or not bpa:
+        raise AnalysisBroken("triangulate_surface: Poisson sampling call / ball_pivoting_algorithm construction not found (%d / %d)" % (len(samp), len(bpa)))
+    s_txt = expand_text(fn, call_args(samp[0])[0])
+    for b in bpa:
+        args = [c for c in b["c"] if isinstance(c, dict)]
+        b_txt = expand_text(fn, args[1])
+        if b_txt == s_txt:
+            rep.ok("C13.ball-scale", prog, fn, b, "the ball-pivoting algorithm is given %s, the minimum spacing of the point cloud" % s_txt)
+        else:
+            rep.violation("C13.ball-scale", prog, fn, b, "ball sized from %s, cloud sampled at %s" % (b_txt[:30], s_txt[:30]),
+                          "triangulate_surface samples the surface with minimum spacing %s but constructs the ball-pivoting algorithm with %s: the ball radius (a fixed multiple of that argument) no longer matches the sampling, so concavities between the two scales are bridged and the reconstructed surface - which still passes every built-in check - does not approximate the input" % (s_txt, b_txt))
